@@ -111,7 +111,7 @@ theorem d_getitem_src : Src.Container.d_getitem =
       "    labeltoindex[a.label] = duplicate if a.label in labeltoindex else i",
       "def _resolveindex(aid):",
       "    aid1 = aid",
-      "    if type(aid) is str:",
+      "    if isinstance(aid, str):",
       "        aid1 = labeltoindex.get(aid, None)",
       "        if aid1 is None:",
       "            raise IndexError('Invalid atom label %r.' % aid)",
